@@ -102,6 +102,25 @@ theorem mk_rejects_unsupported (rel : Bool) : mk .unsupported rel = .error .type
 theorem mk_rejects_fractional (rel : Bool) : mk .fractional rel = .error .type := by
   simp [mk, checkValues, Except.map]
 
+/-- floats: ANY non-integral value, however close to a whole number and however large, is rejected -/
+theorem mk_rejects_any_fractional_float (qs : List Rat) (rel : Bool) (h : ∃ q ∈ qs, q.den ≠ 1) :
+    mk (rawOfFloats qs) rel = .error .type := by
+  obtain ⟨q, hq, hd⟩ := h
+  have : qs.all (fun q => q.den == 1) = false := by
+    rw [List.all_eq_false]
+    exact ⟨q, hq, by simpa using hd⟩
+  simp [rawOfFloats, this, mk, checkValues, Except.map]
+
+/-- floats that are all whole numbers are the horizon of those integers -/
+theorem mk_whole_floats (qs : List Rat) (rel : Bool) (h : ∀ q ∈ qs, q.den = 1) :
+    mk (rawOfFloats qs) rel = mk (.ints (qs.map (·.num))) rel := by
+  have : qs.all (fun q => q.den == 1) = true := by
+    rw [List.all_eq_true]; intro q hq; simpa using h q hq
+  simp [rawOfFloats, this]
+
+example : mk (rawOfFloats [(100000 : Rat) + 2/5, 100001]) true = .error .type := by decide +kernel
+example : mk (rawOfFloats [(3 : Rat), -4]) true = .ok ⟨[-4, 3], true⟩ := by decide +kernel
+
 theorem checkFh_rejects_empty (rel enf : Bool) : checkFh (.ok ⟨[], rel⟩) enf = .error .value := by
   simp [checkFh, bind, Except.bind]
 
